@@ -98,12 +98,15 @@ def check_C01(tier, seed):
     for g in cores.random_class_merges(seed, 12 if tier == "quick" else 150) + cores.random_classes(seed, 12 if tier == "quick" else 150):
         ccases.append(ref_case(g, ["C01"], flagset="std"))
         ccases.append(ref_case(g, ["C01"], flagset="bl"))
+    lcases = [ref_case(g, ["C01"], flagset=fs) for g in cores.random_iliterals(seed, 24 if tier == "quick" else 120) for fs in ("std", "opt")]
     cases.append(ref_case(cat[0], ["TWIN"], suffix="_twin"))
-    catcheck.prepare(w, cases + ccases)
+    catcheck.prepare(w, cases + ccases + lcases)
     agg = catcheck.explore(w, rep, [c for c in cases if not c.id.endswith("_twin")], "C01", r"Harness_C01$", N, tmo, "ref", seed=seed,
                            validate_pkgs=6 if tier == "quick" else 24)
     # one class decides one rune: two (three) bytes are enough for the class cases
     agg = merge_agg(agg, catcheck.explore(w, rep, ccases, "C01", r"Harness_C01$", 2 if tier == "quick" else 3, tmo, "ref", seed=seed, validate_pkgs=3 if tier == "quick" else 10))
+    # case-insensitive literals over letters with unusual case folding (a literal is matched rune by rune: one path per prefix)
+    agg = merge_agg(agg, catcheck.explore(w, rep, lcases, "C01", r"Harness_C01$", 5 if tier == "quick" else 6, tmo, "ref", seed=seed, validate_pkgs=3 if tier == "quick" else 10))
     run_lemmas(w, rep, "C01", ["Seq", "Choice", "And", "Not", "Star", "Plus", "Opt", "Label"], 1 if tier == "quick" else 2)
     # terminals have no children to choose: a longer input is cheap (the literal of the lemma is 3 bytes long)
     run_lemmas(w, rep, "C01", ["Any", "Lit", "Class"], 3 if tier == "quick" else 4, key="lemma_obligations_terminals")
@@ -233,7 +236,7 @@ def run_ref_property(prop, tier, seed, cat, hprops, Nq, Nt, tq=60, tt=900, flags
                            validate_pkgs=6 if quick else 24, max_steps=max_steps)
     twin_check(w, rep, twin)
     if lemmas:
-        run_lemmas(w, rep, prop, lemmas, lemma_n[0] if quick else lemma_n[1])
+        run_lemmas(w, rep, prop, lemmas, lemma_n[0] if quick else lemma_n[1], tmo=300 if quick else 1500)
     b = {"input_bytes_max": N, "grammars": len(cases), "flag_sets": list(fss), "ssa_step_limit_per_path": max_steps,
          "alphabet": "all 256 byte values" if unconstrained else "terminal bytes of the grammar (both cases) + \\n z 0xC3 0xA9"}
     if rnd:
@@ -274,7 +277,7 @@ def check_C14(tier, seed):
 
 
 def check_C11(tier, seed):
-    return run_ref_property("C11", tier, seed, cores.fault_catalogue(), ["C11"], 3, 4, file_name="f.txt", flagsets_q=("std",), tq=120, tt=1800,
+    return run_ref_property("C11", tier, seed, cores.fault_catalogue(), ["C11"], 3, 4, file_name="f%20x.txt", flagsets_q=("std",), tq=120, tt=1800,
                             bounds_extra={"fault_plan": "symbolic: per block slot, first two invocations in {none, errA, errB, panic}", "Recover": "symbolic"},
                             rnd=(8, 80, ("fault",)), lemmas=["AddErr"], lemma_n=(2, 3))
 
@@ -376,6 +379,7 @@ def check_C06(tier, seed):
     catcheck.prepare(w, cases + [twin])
     agg = catcheck.explore(w, rep, cases, "C06", r"Harness_C06$", N, tmo, "rel", seed=seed, validate_pkgs=6 if quick else 20)
     twin_check(w, rep, twin)
+    run_lemmas(w, rep, "C06", ["InOut"], 1, only_std=True)
     std_cov(rep, agg, cases, {"input_bytes_max": N, "random_grammars": "seeded sample (seed %d), see catalog/cores.py random_grammars" % seed, "options": "Memoize, Debug, Statistics symbolic booleans (8 combinations)"},
             "one state = one explored path (input class x option combination)", REL_FUNCS + ["getMemoized/setMemoized", "parseRuleMemoize", "incChoiceAltCnt"])
     rep.cov["disagreements_checked"] = agg["cex"]
@@ -548,6 +552,9 @@ def c19_grammars(quick, seed=0):
         g = json.loads(json.dumps(g))
         alt = [e for e in (g.get("entries") or []) if e]
         out.append((g["name"], gspec.print_peg(g, "p"), dict(optGrammar=True, optParser=k % 2 == 1, altEntry=alt)))
+    for k, g in enumerate(cores.random_lr(seed, 2 if quick else 10)):
+        g = json.loads(json.dumps(g))
+        out.append((g["name"], gspec.print_peg(g, "p"), dict(leftRec=True, optGrammar=k % 2 == 1)))
     hdr = "{\npackage p\n}\n"
     lr = dict(leftRec=True)
     out.append(("f1_nullable_cycle", hdr + "T <- Z / \"\"\nZ <- R2 Z / 'q'\nR2 <- T / 'a'\n", lr))
@@ -560,6 +567,10 @@ def c19_grammars(quick, seed=0):
     out.append(("opt_entry", hdr + "S <- A B\nA <- ('a' / 'b') { return 1, nil }\nB <- 'c' A?\nX <- 'x' A\nY <- X B\n", dict(optGrammar=True, altEntry=["A", "X"])))
     # merged classes with duplicated members of every kind (characters, ranges, Unicode classes)
     out.append(("opt_class_dups", hdr + "S <- (I / [\\p{Nd}\\p{Ll}\\p{Mn}0-9a])+ J\nI <- [\\p{Lu}\\p{Ll}a-fxy] / [_\\p{Lt}\\p{Lu}a-fyz]\nJ <- [a-c]i / [b-d]i / 'q'i / [\\p{Lu}q]i\n", dict(optGrammar=True)))
+    # the same left-recursive grammars with every rule on one source line (rules separated by ';')
+    for name, text, fl in list(out):
+        if fl.get("leftRec") and not name.startswith("lrrnd") and text.startswith(hdr):
+            out.append((name + "_oneline", hdr + ";".join(l for l in text[len(hdr):].split("\n") if l) + "\n", fl))
     if not quick:
         out.append(("opt_lr", hdr + "E <- E '+' T / T\nT <- N / '(' E ')'\nN <- D D?\nD <- [0-9]\n", dict(optGrammar=True, leftRec=True)))
         out.append(("plain_many", hdr + "S <- A B C D\nA <- 'a' B?\nB <- 'b' C?\nC <- 'c' D?\nD <- 'd' / &{ return true, nil } 'e'\n", dict()))
@@ -597,6 +608,7 @@ func Harness_C19(n int) {
 	symOrderMode(0)
 	symNote(cs.name)
 	symAssert(canon.perr == nil && got.perr == nil, "C19: catalogue grammar rejected by the front end")
+	symAssert(!canon.panicked, "C19: the pipeline panicked on a catalogue grammar: "+canon.pmsg)
 	symAssert(canon.panicked == got.panicked, "C19: a panic depends on map iteration order")
 	symAssert((canon.berr == nil) == (got.berr == nil), "C19: acceptance depends on map iteration order")
 	symAssert(canon.out == got.out, "C19: generated output depends on map iteration order")
@@ -1325,7 +1337,8 @@ func lemStateEq(p *parser, e lemSnapT) bool {
 
 def lemma_case(name, flags, with_state):
     """A generated parser (trivial grammar; the runtime is what matters) plus the lemma harnesses."""
-    peg = "{\npackage p\n}\nS <- 'a' %s .*\n" % ("#{ return nil }" if with_state else "")
+    # (the class with \\p{Lu} makes the builder emit the rangeTable helper the class lemmas use)
+    peg = "{\npackage p\n}\nS <- 'a' %s [\\p{Lu}]? .*\n" % ("#{ return nil }" if with_state else "")
     rel = "lem_%s/p" % name
     src = open(os.path.join(VERIF, "harness", "lemmas_parser.go.tmpl")).read().replace("PKGPATH", "vh/" + rel)
     # order matters: STATE_EQ_ALWAYS before STATE_EQ
@@ -1333,13 +1346,20 @@ def lemma_case(name, flags, with_state):
         src = src.replace(key, LEM_STATE[key] if with_state else "")
     if with_state:
         src += LEM_STATE_HELPER
+    # the tracing helpers only exist in parsers generated without -optimize-parser
+    if "-optimize-parser" in flags:
+        src = re.sub(r"LEM_DEBUG_BEGIN.*?LEM_DEBUG_END\n", "", src, flags=re.S)
+    else:
+        src = src.replace("LEM_DEBUG_BEGIN\n", "").replace("LEM_DEBUG_END\n", "")
     names = re.findall(r"func (Harness_Lem\w+)\(", src)
     return catcheck.Case("lem_" + name, [(rel, peg, flags)], rel, {"lemmas.go": src}, names, peg=peg, meta={"flags": flags})
 
 
-def run_lemmas(w, rep, prop, which, N, tmo=300, key="lemma_obligations"):
+def run_lemmas(w, rep, prop, which, N, tmo=300, key="lemma_obligations", only_std=False):
     """Runs the lemma harnesses `which` (regex alternatives) on the four template instances."""
     cases = [lemma_case("std", [], True), lemma_case("optstate", ["-optimize-parser"], True), lemma_case("opt", ["-optimize-parser"], False)]
+    if only_std:
+        cases = cases[:1]
     catcheck.prepare(w, cases)
     hre = r"Harness_Lem(%s)$" % "|".join(which)
     agg = catcheck.explore(w, rep, cases, prop, hre, N, tmo, "lemma", seed=0, validate_pkgs=3, sample_every=200)
